@@ -12,7 +12,12 @@ operand, so every (operator, type pair, value pair) case is evaluated in ALL OPE
   lit-var / var-lit   one literal operand (the inserted conversion of the literal is reduced)
   enum-init (int x int and unary int only) the expression as an enumerator initialiser,
             `enum E { k = <expr> }` read back (front/enumred.c, the third evaluator)
-and likewise assignments (`x = <literal>` / `x = <variable>`) and concatenations.  The result
+and likewise assignments (`x = <literal>` / `x = <variable>`) and concatenations.
+ARRAY FORMS of the operators (`- a`, `a + b`, `a - b`, scalar `s * a`, matrix product `a * b`
+on int/long/float/double arrays, 1-D and 2-D, literal-built / variable-built / computed arrays):
+every element of the result against the scalar operators applied to the elements (a second
+program, metamorphic), pyref and the Coq model on the element tree (key
+`array:<op>:<element type>:<1-D|2-D|matrix-product>[:<scalar type>-scalar]`).  The result
 (bit pattern for float/double) of every form is compared with
   * the extracted Coq model (Arith.RtEval.rt_eval / rt_assign, Arith.Fmt)   -> correspondence
   * an independent Python reference of the C semantics the property names   -> property oracle
@@ -165,6 +170,97 @@ def load_corpus():
 
 def totuple(x):
     return tuple(totuple(i) for i in x) if isinstance(x, list) else x
+
+
+def array_forms(ctx, Tp, Ta, work, reps, counts, nontrivial, violation):
+    """- a, a + b, a - b, s * a, a * b (matrix product) on int/long/float/double arrays, 1-D and
+    2-D, literal-built / element-variable / computed arrays: every element of the result against
+    (1) the scalar operators applied to the elements, evaluated by the VM in a second program
+    (metamorphic oracle, no model), (2) pyref and (3) the extracted Coq model on the element tree"""
+    rng = ctx.rng
+    cases = collections.OrderedDict()
+    n = 0
+    for obj in load_corpus():
+        if obj.get("kind") == "array":
+            c = dict(obj["case"])
+            for k in ("shape", "dims_a", "dims_b", "dims_r"):
+                if k in c:
+                    c[k] = totuple(c[k])
+            cases["kr%04d" % len(cases)] = c
+    for op in af.ARR_OPS:
+        for kind in af.ARR_KINDS:
+            for shape in af.ARR_SHAPES[op]:
+                for form in af.ARR_FORMS:
+                    for r in range(reps * (4 if op == "smul" else 1)):
+                        cases["r%05d" % len(cases)] = af.gen_arr_case(rng, op, kind, shape, form, n)
+                        n += 1
+    progs, meta, lines = [], collections.OrderedDict(), []
+    dist = collections.Counter()
+    for cid, case in cases.items():
+        dist[(case["op"], ac.KIND_TY[case["kind"]], af.shape_class(case), af.shape_name(case), case["form"])] += 1
+        for e in range(af.arr_result_count(case)):
+            tree = af.arr_elem_tree(case, e)
+            if tree is None:
+                counts["excluded-C-UB"] += 1
+                continue
+            eid = "%s.%d" % (cid, e)
+            pa, ps = af.arr_programs(case, e)
+            progs.append((eid + ".a", "", pa))
+            progs.append((eid + ".s", "", ps))
+            lines.append("E %s %s" % (eid, ac.sx(tree)))
+            meta[eid] = (case, e, tree, pa, ps)
+    mo = ae.run_model(lines)
+    rr = al.run_batch(Tp["nevrun"], progs, work, "c11-arr")
+    rr_asan = al.run_batch(Ta["nevrun"], [pr for i, pr in enumerate(progs) if (i // 2) % 8 == 0], work, "c11a-arr")
+    for eid, (case, e, tree, pa, ps) in meta.items():
+        counts["evaluations"] += 1
+        counts["array-form-elements"] += 1
+        key = "array:%s:%s:%s" % (case["op"], ac.KIND_TY[case["kind"]], af.shape_class(case))
+        if case["op"] == "smul" and case["ks"] != case["kind"]:
+            key += ":%s-scalar" % ac.KIND_TY[case["ks"]]
+        m = ae.parse_model_E(mo[eid]) if eid in mo else None
+        ref = ae.ref_as_real(ac.pyref_outcome(tree))
+        if m is None or m["ty"] is None:
+            ctx.correspondence_broken("model-driver", {"case": ac.sx(tree)})
+            continue
+        if m["ub"] or ref[0] == "undef":
+            counts["excluded-C-UB"] += 1
+            continue
+        arr = ae.canon_real(al.classify_run(rr.get(eid + ".a")))
+        sca = ae.canon_real(al.classify_run(rr.get(eid + ".s")))
+        nontrivial.add((key, case["form"], arr))
+        obj = {"array_program": pa, "scalar_program": ps, "element": e, "operator": case["op"],
+               "element_type": ac.KIND_TY[case["kind"]], "shape": af.shape_name(case), "arrays_built": case["form"],
+               "array_form_result": arr, "scalar_operators_result": sca, "expected": ref, "model": m["rt"],
+               "element_tree": ac.sx(tree)}
+        if eid + ".a" in rr_asan:
+            ra = ae.canon_real(al.classify_run(rr_asan.get(eid + ".a")))
+            if ra != arr:
+                violation("sanitizer-differs:" + key, "ASan/UBSan build behaves differently from the plain build", dict(obj, asan=ra))
+        if arr != sca or arr != ref:
+            if sca == ref or arr != sca:
+                violation(key, "element of the array form of %s on %s arrays (shape %s, arrays %s) differs from the scalar operator "
+                          "applied to the elements" % (case["op"], ac.KIND_TY[case["kind"]], af.shape_name(case),
+                                                       {"lit": "literal-built", "var": "built from variables", "computed": "computed"}[case["form"]]),
+                          obj)
+            else:
+                # both programs agree with each other but not with the C semantics: the scalar
+                # operator itself is off (the operator matrix above reports that)
+                violation("value:%s" % ae.root_key(tree), "VM result differs from the C semantics (seen through an array element)", obj)
+        else:
+            counts["array-form-agrees"] += 1
+        if m["rt"] != arr:
+            ctx.correspondence_broken("vm-array-vs-rt_eval", obj)
+        else:
+            counts["model=real"] += 1
+    table = collections.OrderedDict()
+    for (op, ty, cls, shp, form), k in sorted(dist.items()):
+        table.setdefault(op, collections.OrderedDict()).setdefault(ty, collections.OrderedDict()).setdefault(
+            "%s %s" % (cls, shp), []).append("%s:%d" % (form, k))
+    return {"cases": len(cases), "elements": counts["array-form-elements"],
+            "operator -> element type -> shape -> arrays built:count":
+                {op: {ty: {shp: " ".join(v) for shp, v in shapes.items()} for ty, shapes in tys.items()}
+                 for op, tys in table.items()}}
 
 
 def run(ctx):
@@ -469,6 +565,9 @@ def run(ctx):
         else:
             counts["model=real"] += 1
 
+    # ---- array forms of the operators ------------------------------------------------------
+    arrdist = array_forms(ctx, Tp, Ta, work, 2 if quick else 6, counts, nontrivial, violation)
+
     # ---- the table statements on the rows themselves: name the offending cells -----------
     bin_rows = tabs[0]
     order = ["TInt", "TLong", "TFloat", "TDouble"]
@@ -492,9 +591,12 @@ def run(ctx):
         "boundary list per type on either side: >=2^31, >=2^32, >=2^53, long->float tie points, negative shift "
         "operands, MIN, denormals; corner set: 0, +-1, min, max, "
         "min/-1, 2^31, 2^53+-1, +-0.0, denormals, inf, NaN, int->float halfway and double-rounding cases; + seeded "
-        "random), assignments over all 16 numeric pairs, number+string concatenations, and random +,-,*,&,^ trees; "
+        "random), assignments over all 16 numeric pairs, number+string concatenations, random +,-,*,&,^ trees, "
+        "and the array forms (- a, a + b, a - b, s * a, matrix product) per element type and shape, element-wise "
+        "against the scalar operators; "
         "non-trivial = distinct (operator, operand types, outcome) triples")
     ctx.notes["distribution"] = dict(dist)
+    ctx.coverage["array_forms_operator_x_elementtype_x_shape"] = arrdist
     table = collections.OrderedDict()
     for (key, fname), n in sorted(formdist.items()):
         op, _, pair = key.partition(":")
